@@ -109,6 +109,8 @@ def m_check_dump(nv, n, vc, th, notes):
     if notes:
         if any(x.startswith('WRONGCPU') for x in notes):
             return 'a photon thread was executed by the OS thread of a vCPU it does not belong to (%s)' % ' '.join(notes)
+        if any(x.startswith('UNLOCKED') for x in notes):
+            return 'a hooked access was executed outside the lock(s) that protect it (lockset hook; rule 17 = standby-queue push under standbyq.lock + thread.lock, 12-16 = sleep / dequeue / interrupt / timeout / done under thread.lock): ' + ' '.join(notes)
         return 'inconsistent scheduler internals: ' + ' '.join(notes)
     if sorted(vc) != list(range(nv)): return 'dump does not list every vCPU'
     for v in range(nv):
